@@ -307,6 +307,44 @@ static int c01_cmd (char *line)
       vh_out ("badcmd %s", line);
       return 1;
     }
+  if (!strcmp (tok[0], "expl") && n == 4)
+    {
+      /* unit-style: the real explode_string() on "x,x,...,x" (d delimiters; tail 0: the string ends with the
+         delimiter) under MaxArraySize = max; prints the size of the result and the number of slots filled */
+      int max = atoi (tok[1]), d = atoi (tok[2]), tail = atoi (tok[3]);
+      size_t cap = 2 * (size_t) d + 4, len = 0;
+      char *str = (char *) malloc (cap);
+      error_context_t econ;
+      str[len++] = 'x';
+      for (int k = 0; k < d; k++)
+        {
+          str[len++] = ',';
+          if (k < d - 1 || tail)
+            str[len++] = 'x';
+        }
+      str[len] = 0;
+      CONFIG_INT (__MAX_ARRAY_SIZE__) = max;
+      save_context (&econ);
+      if (!setjmp (econ.context))
+        {
+          array_t *a = explode_string (str, len, ",", 1);
+          int filled = 0;
+          for (int k = 0; k < a->size; k++)
+            if (a->item[k].type == T_STRING)
+              filled++;
+          vh_out ("r expl size=%d filled=%d", (int) a->size, filled);
+          free_array (a);
+          pop_context (&econ);
+        }
+      else
+        {
+          restore_context (&econ);
+          pop_context (&econ);
+          vh_out ("r expl !err");
+        }
+      free (str);
+      return 1;
+    }
   if (!strcmp (tok[0], "expect-abort"))
     return 1;			/* annotation for the model (open known findings): no effect here */
   if (!strcmp (tok[0], "idx") && n == 7)
